@@ -181,6 +181,9 @@ def hand_cases():
     out.append(("hand-merge-desugared", {"factors": [A2, B], "constraints": [{"id": 0, "kind": "AtMostKInARow", "k": 1, "level": [0, "a0"]}],
                                          "design": [0, 1], "crossings": [[1]], "cs": [0], "rcc": True, "mode": "repeat",
                                          "alignment": "equal preamble"}))
+    # an empty crossing: _create drops it but keeps its sustain count / weight; Merge takes [:len(crossings)]
+    out.append(("hand-empty-crossing", {"factors": [A, B], "constraints": [], "design": [0, 1], "crossings": [[0], [], [1]], "cs": [],
+                                        "rcc": True, "mode": "repeat", "alignment": "equal preamble"}))
     out.append(("hand-repeat-parallel", {"factors": [A, B], "constraints": [], "design": [0, 1], "crossings": [[0], [1]], "cs": [],
                                          "rcc": True, "mode": "repeat", "alignment": "parallel start"}))
     return out
@@ -257,27 +260,34 @@ def predicted_equal(name, L, R):
         return True, la == ra, (la, ra)
     if name == "repeat-merge":
         b = ls["args"][0]
-        app = b.alignment.value == "equal preamble" and no_desugar(b) and nodup(b.design)
+        aligned = len(b.crossing_sustain_counts) == len(b.crossings) and len(b.crossing_weights) == len(b.crossings)
+        app = b.alignment.value == "equal preamble" and no_desugar(b) and nodup(b.design) and aligned
         return app, la == ra, (la, ra)
     if name == "multi-merge":
         leaves = rs["args"]
         design = [lrec.factors[i] for i in ls["recorded"]["design"]]
         app = (ls["recorded"]["alignment"] == "equal preamble" and all(no_desugar(b) for b in leaves) and nodup(design)
                and len(leaves) >= 1)
-        la2 = dict(la, crossings=[c for c in la["crossings"] if c])
-        return app, la2 == ra, (la2, ra)
+        # sustain counts / weights: all 1, one per crossing (MultiCrossBlock) resp. per non-empty crossing (Merge)
+        nonempty = [c for c in la["crossings"] if c]
+        la2 = dict(la, crossings=nonempty, sustains=la["sustains"][:len(nonempty)], weights=la["weights"][:len(nonempty)])
+        ones_ok = all(x == 1 for x in la["sustains"] + la["weights"]) and len(la["sustains"]) == len(la["crossings"])
+        return app, la2 == ra and ones_ok, (la2, ra)
     if name in ("repeat-nil", "merge-single"):
         # left = combinator over block b; right = b itself: compare with b's own recorded arguments,
-        # up to what the theorem leaves open (initial vs final weights, mode, alignment, crossings filtered)
+        # up to what the theorem leaves open (initial vs final weights, mode, alignment, crossings filtered;
+        # Merge takes the counts / weights of the block's actual crossings only)
         b = ls["args"][0]
         app = no_desugar(b) and nodup(b.design)
-        keep = ("design", "sustains", "rcc", "constraints")
+        keep = ("design", "rcc", "constraints")
         la2 = {k: la[k] for k in keep}
         ra2 = {k: ra[k] for k in keep}
         la2["crossings"] = [c for c in la["crossings"] if c]
         ra2["crossings"] = [c for c in ra["crossings"] if c]
+        n = len(ra2["crossings"]) if name == "merge-single" else len(ra["sustains"])
+        la2["sustains"], ra2["sustains"] = la["sustains"], ra["sustains"][:n]
         la2["weights"] = la["weights"]
-        ra2["weights"] = list(b.crossing_weights)
+        ra2["weights"] = list(b.crossing_weights)[:n] if name == "merge-single" else list(b.crossing_weights)
         if name == "merge-single":
             la2["alignment"], ra2["alignment"] = la["alignment"], ra["alignment"]
         return app, la2 == ra2, (la2, ra2)
